@@ -156,9 +156,11 @@ def _read_frames(path):
     return frames, top
 
 
-def hand_step(solver, nsteps):
+def hand_step(solver, nsteps, start=None, dt0=None):
     """Step a (fresh) real solver by hand through its documented `update` method, exactly as the
-    run loop does: returns the list of states after 0..nsteps updates and the time steps used."""
+    run loop does: returns the list of states after 0..nsteps updates and the time steps used.
+    With `start` (a state dict returned by an earlier call) a new stage is run on the same solver: the arrays are handed on as
+    they are, the step counter and the clock restart from 0 (what the run loop does after thermalisation)."""
     from tdgl.solver.runner import RunningState
 
     opts = solver.options
@@ -178,6 +180,8 @@ def hand_step(solver, nsteps):
     if opts.include_screening:
         sizes["screening_iterations"] = 1
     rs = RunningState(sizes, 1)
+    if start is not None:
+        vals = [start[n] for n in names]
     states = [dict(zip(names, vals))]
     dts = []
     # count genuine refusals of the step solver (observation only: the call is passed through)
@@ -193,7 +197,7 @@ def hand_step(solver, nsteps):
     solver.solve_for_psi_squared = counting
     solver.env_refusals = refusals
     time = 0.0
-    dt = opts.dt_init
+    dt = opts.dt_init if dt0 is None else dt0
     for i in range(nsteps):
         st = {"step": i, "time": time, "dt": dt}
         rs.clear()
